@@ -62,6 +62,9 @@ def generate(rng, tier):
     # histories: several generations on ONE algorithm object and ONE jds list (stale state, caches, aliasing)
     for i in range(n // 2):
         yield G.history_case(rng, [G.FAST, G.MOTIFS, G.NETWORK, G.MOTIFS][i % 4])
+    # sizes / degrees / counts beyond the usual range (motif sizes 9..17, degrees up to 20, N up to 60)
+    for i in range(n // 5):
+        yield G.big_case(rng, [G.FAST, G.MOTIFS, G.NETWORK, G.MOTIFS][i % 4])
     for i in range(n // 3):
         yield G.malformed_case(rng, [G.FAST, G.MOTIFS, G.NETWORK, G.MOTIFS][i % 4])
 
